@@ -179,8 +179,12 @@ std::string describe_events() {
   }
   return s;
 }
-[[noreturn]] void fail(const std::string &sig, const std::string &msg) {
+// --as=<ID>: the same predicates reported for another property (C13 judges "every record reaches the exporter exactly
+// once" on the real BatchLogRecordProcessor): signatures become <ID>:batch:<rest>
+std::string g_sig_as;
+[[noreturn]] void fail(const std::string &sig0, const std::string &msg) {
   const Cfg &c = *g->cfg;
+  const std::string sig = g_sig_as.empty() ? sig0 : g_sig_as + ":batch:" + sig0.substr(sig0.find(':') + 1);
   vfs::fail(sig, msg + vf::sfmt("\n  config: %s Q=%d B=%d P=%d n=%d latency=%d gate=%d F=%d fft=%d S=%d preflush=%d second=%d xfail=%d tail=%d destroy=%d sd_timeout=%d fft2=%d ctor=%d inflight=%d\n  events:\n",
                                 c.kind ? "log" : "span", c.Q, c.B, c.P, c.n, c.latency, c.gate, c.F, c.ff_timeout, c.S, c.preflush, c.second, c.xfail, c.tail, c.destroy, c.sd_timeout, c.fft2, c.ctor, c.inflight) +
                           describe_events());
@@ -426,6 +430,9 @@ void setup(vf::Options &o) {
   opentelemetry::sdk::common::internal_log::GlobalLogHandler::SetLogLevel(opentelemetry::sdk::common::internal_log::LogLevel::None);
   g_oracle = o.get("oracle", o.property);
   o.property = g_oracle;
+  g_sig_as = o.get("as");
+  if (!g_sig_as.empty()) o.property = g_sig_as;
+  const int only_kind = atoi(o.get("kind", "-1").c_str());  // 0: span processor only, 1: log processor only
   o.fork_per_exec = true;
   o.split_depth = 2;
   o.horizon = 20000;
@@ -443,6 +450,7 @@ void setup(vf::Options &o) {
   auto want = [&](const char *id) { return cfgsets.find(std::string(",") + id + ",") != std::string::npos; };
   Cfg z{};  // all zero
   for (int kind = 0; kind < 2; ++kind) {
+    if (only_kind >= 0 && kind != only_kind) continue;
     Cfg b = z; b.kind = kind;
     if (want("C01")) {
       // {Q,B}: the queue is smaller than / equal to / larger than what is produced
